@@ -35,12 +35,14 @@ pcvars == <<vchain, vmap>>
 vcont == Cont
 
 \* ---------------------------------------------------------------- entries
-\* entry == [kind, c, before, after, cls]
+\* entry == [kind, c, before, after, cls, sto]   (sto: how a patch entry is stored in its archive --
+\*          raw | zsingle (single unit, compressed) | zsect (sector table + compressed sectors); driver only)
 \*   kind = "none" | "plain" (content id c) | "patch" (turns content `before` into `after`)
 \*   cls  = "" | "copy" | "bsd0" | "bsd0neg" | "corrupt" | "garbage"
-NoEntry          == [kind |-> "none",  c |-> "", before |-> "", after |-> "", cls |-> ""]
-Plain(cid)       == [kind |-> "plain", c |-> cid, before |-> "", after |-> "", cls |-> ""]
-Patch(b, a, cl)  == [kind |-> "patch", c |-> "", before |-> b, after |-> a, cls |-> cl]
+NoEntry          == [kind |-> "none",  c |-> "", before |-> "", after |-> "", cls |-> "", sto |-> ""]
+Plain(cid)       == [kind |-> "plain", c |-> cid, before |-> "", after |-> "", cls |-> "", sto |-> ""]
+PatchS(b, a, cl, st) == [kind |-> "patch", c |-> "", before |-> b, after |-> a, cls |-> cl, sto |-> st]
+Patch(b, a, cl)  == PatchS(b, a, cl, "raw")
 WellFormedCls    == {"copy", "bsd0", "bsd0neg"}
 
 ArchIds(cont)  == DOMAIN cont
@@ -103,8 +105,10 @@ Failed      == Res("err", "")
 Versions(ch, cont, n) == SelectSeq(Idx(ch), LAMBDA i : Has(cont, ch[i].a, n))
 EntryAt(ch, cont, i, n) == cont[ch[i].a][n]
 
-\* The code differs from the property-level semantics in three NAMED DEVIATIONS (each confirmed
-\* against the real code by the C08 check, see notes/C08.md):
+\* Until the fix commits 575eb45 / 9d6d935 / dbb7470 the code differed from the property-level
+\* semantics in three NAMED DEVIATIONS (each was confirmed against the real code by the C08 check, see
+\* notes/C08.md).  They are kept: CodeDevs says which of them the code has (none any more), TLC refutes
+\* each of them in MC_PatchChain (DevRefuted), and Trace_PatchChain uses them to name a regression:
 \*  "d1" read_patched_file collects every patch entry of the name anywhere in the chain -- also
 \*       those *below* the base -- and applies them all, lowest first;
 \*  "d2" a patch entry that cannot be parsed is skipped with a log line instead of failing the read;
@@ -139,7 +143,9 @@ ReadWith(devs, ch, cont, map, n) ==
   IF n \notin DOMAIN map \/ map[n] = 0 THEN NotFound
   ELSE LET e == EntryAt(ch, cont, map[n], n)
        IN  IF e.kind = "plain" THEN Res("ok", e.c) ELSE Resolve(devs, ch, cont, n, map[n])
-CodeRead(ch, cont, map, n)  == ReadWith(AllDevs, ch, cont, map, n)
+CodeDevs == {}                       \* the deviations the code under test still has
+CodeRead(ch, cont, map, n)  == ReadWith(CodeDevs, ch, cont, map, n)
+OldCodeRead(ch, cont, map, n) == ReadWith(AllDevs, ch, cont, map, n)
 IdealRead(ch, cont, map, n) == ReadWith({}, ch, cont, map, n)
 \* What C08 accepts as the answer `o` for name n: the ideal answer; where the ideal answer is an error
 \* ("... or an error -- never unverified bytes") also bytes that carry the digest the *winning* patch declares.
@@ -182,19 +188,26 @@ D1(ch, cont, n) == \E i, j \in Holders(ch, cont, n) :
                       i < j /\ EntryAt(ch, cont, i, n).kind = "plain" /\ EntryAt(ch, cont, j, n).kind = "patch"
 D2(ch, cont, n) == \E i \in Holders(ch, cont, n) : EntryAt(ch, cont, i, n).cls = "garbage"
 D3(ch, cont, n) == \E i \in Holders(ch, cont, n) : EntryAt(ch, cont, i, n).cls = "bsd0neg"
-\* (i) only where a deviation is in play can the code's answer be unacceptable
+\* (0) the as-coded read is the ideal read
+CodeIsIdeal == \A n \in NamesOf(vcont) : CodeRead(vchain, vcont, vmap, n) = IdealRead(vchain, vcont, vmap, n)
+\* (i) only where a deviation is in play could the OLD code's answer be unacceptable
 DeviationsExplainCode ==
   \A n \in NamesOf(vcont) :
-     ~Acceptable(CodeRead(vchain, vcont, vmap, n), vchain, vcont, vmap, n)
+     ~Acceptable(OldCodeRead(vchain, vcont, vmap, n), vchain, vcont, vmap, n)
         => D1(vchain, vcont, n) \/ D2(vchain, vcont, n) \/ D3(vchain, vcont, n)
 \* (ii) the safe half: d1 and d3 only ever turn answers into errors or into bytes verified against the
 \* winning patch; only d2 with an unparsable *winning* patch returns bytes no digest vouches for
 CodeSafeModuloD2 ==
   \A n \in NamesOf(vcont) :
-     LET o == CodeRead(vchain, vcont, vmap, n)
+     LET o == OldCodeRead(vchain, vcont, vmap, n)
      IN  (vmap[n] # 0 /\ WinnerEntry(vchain, vcont, vmap, n).kind = "patch" /\ o.res = "ok"
           /\ WinnerEntry(vchain, vcont, vmap, n).cls # "garbage")
          => o.c = WinnerEntry(vchain, vcont, vmap, n).after
+
+\* each single deviation is REFUTED by the model: some chain makes it return an unacceptable answer
+DevRefutedOn(d, ch) ==
+  LET m == Rebuild(ch, vcont)
+  IN  \E n \in NamesOf(vcont) : ~Acceptable(ReadWith({d}, ch, vcont, m, n), ch, vcont, m, n)
 
 \* sequential and parallel construction agree (checked over all short lists by the MC instance)
 ParallelAgrees(cont, l) ==
